@@ -239,7 +239,7 @@ def ob_invert(k, bounds_kind, timeout):
     names = ["lo", "hi"] + _ts(k)
 
     def pre(lo, hi, *ts):
-        ok = finite(lo, hi, *ts) & (lo <= hi)
+        ok = finite(lo, hi, *ts) & (lo < hi)  # bounds form a proper interval
         # intervals individually valid and sorted+disjoint, inside the bounds when given
         ok = ok & ivs_wf_pre(lo, hi, *ts)
         return ok
